@@ -4,6 +4,7 @@ import json
 import vlib
 import syntax
 import recvlib
+import recvprop
 import convlib
 import erecvlib
 import elemprop
@@ -28,11 +29,7 @@ def gen_cases(rng, tier):
             cases.append({"target": x["name"], "src": src, "entry": "meta"})
         cases.append({"target": x["name"], "src": "", "entry": "none"})
         cases.append({"target": x["name"], "src": '"lit"', "entry": "nested"})
-    for c in cases:
-        x = recvlib.BY_NAME[c["target"]]
-        words = set(w for w in __import__("re").findall(r"[A-Za-z_][A-Za-z0-9_:]*", c["src"]))
-        c["pairs"] = sorted((w, n) for w in words for n in recvlib.all_names(x))[:400]
-    return cases
+    return recvprop.all_with_pairs(cases)
 
 
 def gen_elem_cases(rng, tier):
